@@ -66,11 +66,27 @@ def push_shape_memo(arguments: dict[str, Any]):
         memo_stack = _shape_storage.memo_stack = []
     memos = ({}, {}, {}, arguments.copy())
     memo_stack.append(memos)
+    # A new context starts outside whichever PyTree check it was entered from (e.g. a
+    # decorated function called by a custom flatten function, or by the `shape`
+    # property of a leaf): neither the "only look at the array type" mode nor a `?`
+    # leaf position carry over into it. Both come back when the context ends.
+    try:
+        suspended = _shape_storage.suspended
+    except AttributeError:
+        suspended = _shape_storage.suspended = []
+    suspended.append(
+        (get_treeflatten_memo(), getattr(_treepath_storage, "value", None))
+    )
+    _treeflatten_storage.value = False
+    _treepath_storage.value = None
     return memos
 
 
 def pop_shape_memo() -> None:
     _shape_storage.memo_stack.pop()
+    _treeflatten_storage.value, _treepath_storage.value = (
+        _shape_storage.suspended.pop()
+    )
 
 
 def shape_str(memos) -> str:
